@@ -14,11 +14,12 @@ from ..scen import REQ, RESP, hb
 LEVEL = 'exploration'
 RULE = ('each case = one long-lived connection (config: validate_inbound x normalize_inbound x header_encoding) receiving up to '
         '12 header blocks, each on a fresh stream, in positions request / request-trailers (server) and response / '
-        'informational / response-trailers / pushed-request (client); blocks are rule-targeted (one violation of each '
+        'informational / response-trailers / pushed-request (client), on streams where the endpoint itself may already have sent '
+        'body, trailers, END_STREAM or (server) 1xx/final response; blocks are rule-targeted (one violation of each '
         '8.1.2 rule at first/middle/last position) or random over an adversarial byte alphabet incl. empty names; '
         'non-trivial = the predicate gave a verdict and it was compared; distinct = hash of (config, position, decoded list)')
 MINIMA = {'verdict_conformant_checked': 4000, 'verdict_nonconformant_checked': 4000, 'delivered_headers_compared': 4000,
-          'validation_off_checked': 1000, 'cookie_join_checked': 150, 'header_encoding_checked': 500}
+          'validation_off_checked': 1000, 'cookie_join_checked': 150, 'inbound_block_after_local_history': 2000, 'inbound_block_after_local_trailers': 1000, 'header_encoding_checked': 500}
 
 RULE_MUTATIONS = ['empty-name', 'uppercase', 'ws-name', 'ws-value', 'connection', 'te-bad', 'te-ok', 'dup-pseudo', 'pseudo-late',
                   'unknown-pseudo', 'wrong-role-pseudo', 'drop-required', 'authority-host-mismatch', 'authority-host-equal',
@@ -146,23 +147,24 @@ def run_case(idx, rng, tier, rep):
             want_event = 'RequestReceived'
         elif pos == 'req_trailers':
             sid, r0 = h.peer_request(headers=scen.REQ_POST)
-            ok = r0.ok
+            ok = r0.ok and local_history(h, rng, rep, sid)
             data = wire.build_headers(sid, block, end_stream=True)
             want_event = 'TrailersReceived'
         elif pos == 'response':
-            sid, r0 = h.e_request()
-            ok = r0.ok
+            sid, r0 = client_request(h, rng, rep)
+            ok = r0
             data = wire.build_headers(sid, block, end_stream=(rng.random() < 0.5 and not informational and
                                                                not any(v.startswith(b'1') for n, v in hs if n == b':status')))
             want_event = 'InformationalResponseReceived' if informational else 'ResponseReceived'
         elif pos == 'resp_trailers':
-            sid, r0 = h.e_request()
-            ok = r0.ok and h.peer_headers(sid, RESP).ok
+            sid, r0 = client_request(h, rng, rep, first=False)
+            ok = r0 and h.peer_headers(sid, RESP).ok
+            ok = ok and (rng.random() < 0.7 or local_history(h, rng, rep, sid, True))
             data = wire.build_headers(sid, block, end_stream=True)
             want_event = 'TrailersReceived'
         else:
-            sid, r0 = h.e_request()
-            ok = r0.ok
+            sid, r0 = client_request(h, rng, rep)
+            ok = r0
             pid = h.peer_next
             h.peer_next += 2
             data = wire.build_push_promise(sid, pid, block)
@@ -233,6 +235,49 @@ def run_case(idx, rng, tier, rep):
                 rep.violation('C15:refusal-code-not-PROTOCOL_ERROR:%s:got-%s' % (reason, code),
                               'non-conformant block refused with code %r' % code, w)
             return
+
+
+def client_request(h, rng, rep, first=True):
+    """E (a client) opens a stream; often it has already sent more of its own message (body, trailers) before the
+    peer's block arrives: what E sent must not change how the inbound block is judged."""
+    if rng.random() < 0.65:
+        sid, r0 = h.e_request(end_stream=rng.random() < 0.3)
+        return sid, r0.ok
+    sid, r0 = h.e_request(headers=scen.REQ_POST)
+    return sid, r0.ok and (not first or local_history(h, rng, rep, sid, True))
+
+
+def local_history(h, rng, rep, sid, responded=False):
+    """E's own side of the stream advances: (server) informational/final response, then body, trailers or END_STREAM."""
+    t = h.t
+    steps = []
+    if not responded:
+        if rng.random() < 0.6:
+            return True
+        if rng.random() < 0.3:
+            steps.append(('send_headers', sid, [(b':status', b'103')]))
+        if rng.random() < 0.8:
+            steps.append(('send_headers', sid, RESP))
+            responded = True
+    if responded:
+        r = rng.random()
+        if r < 0.3:
+            steps.append(('send_data', sid, b'abc'))
+        if r < 0.15 or 0.3 <= r < 0.65:
+            steps.append(('send_headers', sid, scen.TRAILERS))
+        elif 0.65 <= r < 0.8:
+            steps.append(('end_stream', sid))
+    for st in steps:
+        if st[0] == 'send_headers' and st[2] is scen.TRAILERS:
+            r0 = t.call('send_headers', sid, st[2], end_stream=True)
+            rep.count('inbound_block_after_local_trailers')
+        else:
+            r0 = t.call(*st)
+        if not r0.ok:
+            return False
+    if steps:
+        rep.count('inbound_block_after_local_history')
+    return True
 
 
 def decodable(hs, enc):
